@@ -22,6 +22,8 @@ def run(tier, seed):
                 # same length twice = same text (seed = position-independent) to exercise re-interning
                 ops = ";".join(f"g:{ln}:{ln}" for ln in combo)
                 cases.append((kind, ops, True))
+    for a, b in itertools.permutations([b"file_\xff", b"file_\xfe", b"file_", b"", "file_\ufffd".encode()], 2):
+        cases.append(("path", f"h:{a.hex()};h:{b.hex()};h:{a.hex()}", True))
     n_exh = len(cases)
     # seeded sequences with lengths drawn around boundaries, repeats, literals
     for _ in range(400 if tier == "quick" else 4000):
@@ -35,7 +37,9 @@ def run(tier, seed):
             elif r < 0.7:
                 ops.append(f"g:{rng.choice([1000, 4095, 4096, 4097, 65535, 65536, 70000])}:{rng.randint(0, 2)}")
             elif r < 0.85:
-                ops.append("h:" + bytes(rng.choice(b"abcxyz/._") for _ in range(rng.randint(0, 6))).hex())
+                # literal texts; paths need not be UTF-8 (file_\xff and file_\xfe are different files)
+                alpha = b"abcxyz/._" if kind == "str" else b"abcxyz/._\xff\xfe\x80\xc3"
+                ops.append("h:" + bytes(rng.choice(alpha) for _ in range(rng.randint(0, 6))).hex())
             else:
                 ops.append(f"g:{rng.randint(0, 300)}:{rng.randint(0, 3)}")
         cases.append((kind, ";".join(ops), True))
